@@ -158,11 +158,6 @@ func c16run(cs string) string {
 	res := "err"
 	if err == nil && r != nil {
 		tag := -1
-		for _, rr := range r.Answers {
-			if a, ok := rr.(interface{ Hdr() interface{} }); ok {
-				_ = a
-			}
-		}
 		// decode the nonce from the A record through a re-pack (the A type is internal)
 		b := make([]byte, r.Len())
 		if n, perr := r.Pack(b, false, 0); perr == nil {
